@@ -175,8 +175,8 @@ type Walker struct {
 	defers []*ast.FuncLit
 	depth  int
 	// inline return collection (for predicate inlining)
-	inl *inlineCtx
-	budget int
+	inl      *inlineCtx
+	budget   int
 	swBreaks []*State
 	cnt      []*cntCtx
 	// trackFields: substitute reads of scalar state fields by the value last written on this path
@@ -1628,6 +1628,21 @@ func (w *Walker) eval(e ast.Expr, st *State) []evalRes {
 		}
 		return out
 	case *ast.CallExpr:
+		// a state predicate used as a value (`sor := d.RequestSentOrReceived()`): its truth is decided here, with the
+		// facts of its inlined body, and the value is the constant
+		if fn := w.staticCallee(x); fn != nil && w.A.isPurePredicate(fn) && w.depth < 6 && isBoolExpr(w.info, x) {
+			ts, fs := w.cond(x, st)
+			var out []evalRes
+			for _, s := range ts {
+				out = append(out, evalRes{s, constTerm("true")})
+			}
+			for _, s := range fs {
+				out = append(out, evalRes{s, constTerm("false")})
+			}
+			if len(out) > 0 {
+				return out
+			}
+		}
 		var out []evalRes
 		for _, r := range w.evalCall(x, st, 1) {
 			var t *Term
